@@ -453,7 +453,7 @@ theorem copy_execOne (env : PEnv) (mh : Match) (st : ExecSt) (tr : Trace) (h0 : 
       | none => exact ⟨h1, rfl⟩
       | some fd =>
         dsimp only
-        refine wp_bind_ext (wp_quiet0' (q0_execP fd) _ h1) ?_
+        refine wp_bind_ext (wp_quiet0' (q0_execP _ fd) _ h1) ?_
         intro rc L1 h2
         cases fd with
         | none => exact ⟨h2, rfl⟩
